@@ -630,6 +630,12 @@ class Lowerer:
                     walk(recv, n)
                     walk(a, n)
                     return
+                if opname == 'operator=' and callee.get('referencedDecl', {}).get('type', {}).get('qualType', '').count('&') >= 1:
+                    # implicit (trivial) copy assignment of a plain class: a C struct assignment with the same text
+                    note('struct-assign')
+                    for c_ in n['inner'][1:]:
+                        walk(c_, n)
+                    return
                 raise LowerError('%s: overloaded operator %s outside subset' % (qual, opname))
             if k == 'MemberExpr' and n.get('name') in ('beg', 'cur', 'end') and is_stream(n['inner'][0]['type'].get('desugaredQualType', n['inner'][0]['type']['qualType'])):
                 s, e, m, _ = need_nomacro(n, 'stream seek direction')
@@ -880,6 +886,10 @@ class Lowerer:
                     if vt.strip().endswith('&'):
                         raise LowerError(qual + ': local reference variable ' + v['name'])
                     init = [c for c in v.get('inner', []) if c.get('kind') == 'CXXConstructExpr']
+                    if init and len(init[0].get('inner', [])) == 1 and re.match(r'^void \((const )?%s &&?\)' % re.escape(strip_ns(vt).replace('const ', '').strip()), strip_ns(init[0]['ctorType']['qualType'])):
+                        # copy-initialisation of a plain class from an lvalue: identical C text (struct copy)
+                        note('struct-copy-init')
+                        continue      # children are visited by the generic traversal below
                     if init:
                         if len(vds) != 1:
                             raise LowerError(qual + ': multiple class-type variables in one declaration')
